@@ -78,6 +78,11 @@ func actualErrors(res map[string]interface{}) (paths [][]interface{}, stripped i
 
 // checkFull compares data (shape-checking borderline leaves) and the multiset of error paths.
 func checkFull(c *Case, prop string) (ds []hx.Discrepancy, exp *hx.Expect, res map[string]interface{}, w *World) {
+	return checkFullWith(c, prop, nil)
+}
+
+// checkFullWith is checkFull with a definition of computed fields for the reference.
+func checkFullWith(c *Case, prop string, compute func(n *hx.Node, fd *hx.Field, args map[string]interface{}) (hx.Val, bool)) (ds []hx.Discrepancy, exp *hx.Expect, res map[string]interface{}, w *World) {
 	add := func(kind, sig, format string, args ...interface{}) {
 		ds = append(ds, hx.Discrepancy{Kind: kind, Sig: sig, Detail: fmt.Sprintf(format, args...)})
 	}
@@ -87,7 +92,7 @@ func checkFull(c *Case, prop string) (ds []hx.Discrepancy, exp *hx.Expect, res m
 		add("setup", "", "%v", err)
 		return
 	}
-	x := &hx.Exec{S: c.Schema, G: c.Graph, D: c.Doc, Faults: c.Faults, Echo: c.Echo}
+	x := &hx.Exec{S: c.Schema, G: c.Graph, D: c.Doc, Faults: c.Faults, Echo: c.Echo, Compute: compute}
 	exp = x.Run(c.Op, c.VarMap())
 	var text string
 	var pan interface{}
